@@ -187,7 +187,7 @@ def run(ctx):
     ctx.audit("Slock.Properties.C09", THEOREMS)
     if ctx.tier == "thorough":
         ctx.leanchecker("Slock.Properties.C09")
-    exe = ctx.build_harness("server")
+    exe = ctx.build_harness("server", only=["zz_verif_repl_test.go"])
     if exe:
         n = 2500 if ctx.tier == "quick" else 60000
         seeds = [ctx.seed] if ctx.tier == "quick" else [ctx.seed + i for i in range(4)]
